@@ -286,6 +286,9 @@ class Gen(object):
 
     def shape(self):
         r = self.rng
+        if r.random() < 0.07:
+            # rarer shapes: single-element arrays of rank 2, columns, rank 3, and empty arrays
+            return r.choice([(1, 1), (2, 1), (3, 1), (1, 2), (2, 1, 2), (2, 2, 2), (1, 1, 3), (0,), (2, 0)])
         return r.choice([(2,), (3,), (4,), (2, 2), (2, 3), (3, 2), (3, 3), (1, 3), (1,)])
 
     def array_spec(self, fmt, shape, rounding='trunc', kind=None):
@@ -833,6 +836,8 @@ class Gen(object):
             op['route'] = 'rop'
         elif k < 0.9:
             op['route'] = 'fn'
+            if 'slot' not in op['b'] and r.random() < 0.25:
+                op['swap'] = True
             if r.random() < 0.7:
                 op['sizing'] = r.choice(SIZINGS if not judged else ['optimal', 'same', 'largest', 'smallest'])
             if r.random() < 0.4:
